@@ -10,7 +10,8 @@ Request:  `crash  run  <history>  <k|-|@i.n>`   (k = kill after k engine calls; 
   history := `;`-separated statements
      `N<mkDb><mkSchema>.<s>` connect(database 0, schema s) · `T<t>.<cmt|->.<len|->` CREATE TABLE · `D<t>` DROP TABLE ·
      `M<t>.<c>` COMMENT ON · `S<s>` CREATE SCHEMA · `V<v>` CREATE VIEW · `B<d>` CREATE DATABASE ·
-     `i<t>.<k>.<v>` / `u<t>.<k>.<v>` / `d<t>.<k>` DML · `G<t>.<k1>.<v1>.<k2>.<v2>…` MERGE with those source rows ·
+     `i<t>.<k>.<v>` / `u<t>.<k>.<v>` / `d<t>.<k>` DML · `G<t>.<k1>.<v1>.<k2>.<v2>…` MERGE with those source rows · `e<t>.<k1>.<v1>.<k2>.<v2>…` executemany INSERT of
+     those rows ·
      `q` SELECT · `b` / `c` / `r` · `x` COMMIT rejected by a commit-time conflict · `E` end of a `with conn:` block
 Reply:    `calls=<per statement: string over q w b c r, statements separated by |>  total=<n>  impl=<dump>
            before=<dump>  after=<dump>  finding=<key|->  stmt=<index|->  j=<calls into it|->`
@@ -48,6 +49,7 @@ def parseStmt (s : String) : Option Stmt :=
   | 'u' => match nats tl with | some [t, k, v] => some (.dml t (.upd k v)) | _ => none
   | 'd' => match nats tl with | some [t, k] => some (.dml t (.del k)) | _ => none
   | 'G' => match nats tl with | some (t :: r) => some (.merge t (pairs r)) | _ => none
+  | 'e' => match nats tl with | some (t :: r) => some (.insertMany t (pairs r)) | _ => none
   | 'q' => some .select
   | 'b' => some .begin
   | 'c' => some .commit
